@@ -31,6 +31,31 @@ class Fail(Exception):
     pass
 
 
+class IndexLike:
+    """An integer-like object (operator.index works on it), as numpy integers are: a list accepts it as an index."""
+
+    def __init__(self, v):
+        self.v = v
+
+    def __index__(self):
+        return self.v
+
+    def __repr__(self):
+        return f"IndexLike({self.v})"
+
+
+def dress(rng, i, acc):
+    """The index as the caller may spell it: a plain int, a bool (for 0 / 1) or an object with __index__."""
+    r = rng.random()
+    if r < 0.05 and i in (0, 1):
+        acc.count("indices_spelled_as_bool")
+        return bool(i)
+    if r < 0.12:
+        acc.count("indices_spelled_as_index_like_objects")
+        return IndexLike(i)
+    return i
+
+
 class Model:
     def __init__(self, n, item_size):
         self.n, self.item_size = n, item_size
@@ -286,10 +311,12 @@ class Runner:
             if -n <= i < n:
                 acc.add("index_classes", "neg" if i < 0 else "nonneg")
                 try:
-                    got = arr[i]
+                    key = dress(rng, i, acc)
+                    self.trace[-1].append(type(key).__name__)
+                    got = arr[key]
                 except Exception as e:
                     self.viol(f"array:get-raised:{'neg' if i < 0 else 'nonneg'}:{exc_site(e)}",
-                              f"arr[{i}] raised {type(e).__name__}: {e}")
+                              f"arr[{key!r}] raised {type(e).__name__}: {e}")
                     raise Fail()
                 if got != model.items[i]:
                     self.viol(f"array:get-wrong:{'neg' if i < 0 else 'nonneg'}", f"arr[{i}] = {got!r} model {model.items[i]!r}")
@@ -302,8 +329,11 @@ class Runner:
             self.trace.append(["set", i, v.hex() if isinstance(v, (bytes, bytearray)) else repr(v)])
             in_range = -n <= i < n
 
+            key = dress(rng, i, acc) if (in_range and valid) else i
+            self.trace[-1].append(type(key).__name__)
+
             def do():
-                arr[i] = v
+                arr[key] = v
             if in_range and valid:
                 try:
                     do()
@@ -320,7 +350,12 @@ class Runner:
             sl = gen_slice(rng, n)
             self.trace.append(["getslice", [sl.start, sl.stop, sl.step]])
             try:
-                got = arr[sl]
+                if rng.random() < 0.1:
+                    # slice bounds spelled as integer-like objects
+                    acc.count("slices_with_index_like_bounds")
+                    got = arr[slice(*(IndexLike(x) if x is not None else None for x in (sl.start, sl.stop, sl.step)))]
+                else:
+                    got = arr[sl]
             except Exception as e:
                 self.viol(f"array:getslice-raised:{exc_site(e)}", f"arr[{sl}] raised {type(e).__name__}: {e}")
                 raise Fail()
@@ -752,8 +787,9 @@ def replay(case, acc, ctx):
                     model.items[i] = model.pad(x)
             elif kind == "get":
                 i = op[1]
+                spell = {"bool": bool, "IndexLike": IndexLike}.get(op[2] if len(op) > 2 else "int", int)
                 try:
-                    got = arr[i]
+                    got = arr[spell(i)]
                     if not (-n <= i < n):
                         return diverged(step, "out-of-range read did not raise")
                     if got != model.items[i]:
@@ -764,8 +800,9 @@ def replay(case, acc, ctx):
             elif kind == "set":
                 i, v = op[1], val(op[2])
                 ok = (-n <= i < n) and model.valid_item(v)
+                spell = {"bool": bool, "IndexLike": IndexLike}.get(op[3] if len(op) > 3 else "int", int)
                 try:
-                    arr[i] = v
+                    arr[spell(i)] = v
                     if not ok:
                         return diverged(step, "invalid write did not raise")
                     model.items[i] = model.pad(v)
